@@ -3,7 +3,8 @@
 afterwards), confirms that the pinned suite still passes and that the demonstration fails with the change and
 passes without it, runs the quick checks with VERIF_REPO=<scratch> and records which checks report a VIOLATION.
 
-usage: run_seeded.py [--all-checks] [--only <seed-id>[,<seed-id>...]] [--tier quick|thorough]
+usage: run_seeded.py [--all-checks] [--only <seed-id>[,<seed-id>...]] [--tier quick|thorough] [--full]
+(without --full each batch stops soon after its first failing run; the failing run and its replay are the same)
 Writes /verif/evidence/sensitivity.json (merging with earlier results for seeds not re-run).
 """
 import os
@@ -71,10 +72,17 @@ def main():
                 env = dict(os.environ, VERIF_REPO=wt, VERIF_SEED=os.environ.get('VERIF_SEED', '0'))
                 env['VERIF_EVIDENCE_DIR'] = '/tmp/seeded_evidence'
                 env['VERIF_REPLAY_DIR'] = '/tmp/seeded_replays'
+                flag = '/tmp/seeded_stop_%s_%s' % (sid, pid)
+                if os.path.exists(flag):
+                    os.remove(flag)
+                if '--full' not in args:
+                    env['VERIF_STOP_FLAG'] = flag      # the batch stops soon after the first failing run (same runs, same order per worker)
                 p = subprocess.run([os.path.join(VERIF, 'check'), pid, '--tier', tier], env=env, capture_output=True, text=True,
                                    cwd=VERIF, timeout=7200)
                 lines = [l for l in p.stdout.splitlines() if l.startswith('VIOLATION')]
                 detail = [l.strip()[:300] for l in p.stdout.splitlines() if l.strip().startswith('clause=')][:2]
+                if os.path.exists(flag):
+                    os.remove(flag)
                 caught[pid] = {'rc': p.returncode, 'violations': len(lines), 'wall_s': round(time.time() - t0, 1), 'first': detail}
             rec['checks'] = caught
             rec['caught_by'] = sorted(k for k, v in caught.items() if v['violations'] > 0 and v['rc'] == 1)
